@@ -129,3 +129,20 @@ Fixpoint trace (s : st) (evs : list event) : list (Z * list Z * Z * Z) :=
   | [] => []
   | e :: r => if enabled s e then let (s', o) := step s e in obs s' o :: trace s' r else []
   end.
+
+(* comparison with what the implementation did, inside Coq (printing large lists of numbers is slow):
+   an observation is packed as (flags + 4096 * outputs-in-base-8, delay ns, timer ns); the implementation's
+   nanoseconds come from doubles, so they may differ by 1 ns + 1e-9 relative *)
+Definition pack_obs (x : Z * list Z * Z * Z) : Z * Z * Z :=
+  match x with (f, o, d, t) => (f + 4096 * fold_left (fun a c => a * 8 + c) o 0, d, t) end.
+Definition close_ns (m p : Z) : bool := Z.abs (m - p) <=? 1 + Z.abs p / 1000000000.
+Definition obs_match (m p : Z * Z * Z) : bool :=
+  match m, p with (mf, md, mt), (pf, pd, pt) =>
+    (mf =? pf) && close_ns md pd && (if pt =? -1 then mt =? -1 else negb (mt =? -1) && close_ns mt pt) end.
+Fixpoint first_mismatch (i : Z) (ms ps : list (Z * Z * Z)) {struct ms} : Z * option (Z * Z * Z) :=
+  match ms, ps with
+  | [], [] => (-1, None)
+  | m :: mr, p :: pr => if obs_match m p then first_mismatch (i + 1) mr pr else (i, Some m)
+  | m :: _, [] => (i, Some m)
+  | [], _ :: _ => (i, None)
+  end.
